@@ -20,5 +20,7 @@ def run(ctx):
     failures += progflow.judge(ctx, progflow.generate(ctx, "funcs", n, extra=("-effects",)), "gen")
     # beyond the small scope: sizes that cross the one-digit / two-digit boundary of names, counters and indices (spec/FamScale.tla)
     failures += progflow.judge(ctx, progflow.scale_cases(ctx, "C04"), "scale")
+    # every ordered pair of feature snippets x every composition mode (spec/FamPairs.tla): the pairs whose highest property is this one
+    failures += progflow.judge(ctx, progflow.pair_cases(ctx, "C04"), "pairs")
     progflow.report(ctx, failures)
     return ctx.finish(rule=RULE, assumptions=ASSUME)
